@@ -25,6 +25,10 @@ def run(rep, tier):
     ix = common.index(rep)
     cc = ContextClasses(M.src["py_parser"])
     c03_1(rep, M)
+    # the precedence numbers live in the generated rule method too: its code must agree with the automaton (K1, K1b)
+    from . import c14_k1
+    c14_k1.k1(rep, M)
+    common.guarded(rep, "C14.K1b", c14_k1.k1b, rep, M)
     branches = common.guarded(rep, "C03.2", c03_2, rep, ix, M)
     if branches:
         common.guarded(rep, "C03.3", c03_3, rep, ix, M, cc, branches)
